@@ -114,7 +114,7 @@ theorem evalClassDef_classDef (env : String → Option Elem) (n : String) (kw : 
     (props pats : List (Key × Elem)) (addP pn : Option Elem) (deps : List (Key × Elem)) (els : List Elem)
     (ok : ClassOK ⟨kw, items, addI, cont, props, pats, addP, pn, deps, els⟩)
     (hi : WFL env items) (ha : WFO env addI) (hc : WFO env cont) (hp : WFK env props) (hpt : WFK env pats)
-    (hap : WFO env addP) (hpn : WFO env pn) (hd : WFK env deps) (he : WFL env els) :
+    (hap : WFO env addP) (hpn : WFO env pn) (hd : WFD env deps) (he : WFL env els) :
     evalClassDef env (classDef (.mk (.object n) kw items addI cont props pats addP pn deps els)) =
       some (.mk (.object n) kw items addI cont props pats addP pn deps els) := by
   have hk : EvalKids env (reprKidsOf (.mk (.object n) kw items addI cont props pats addP pn deps els))
@@ -143,7 +143,7 @@ def DeclOK (env : String → Option Elem) : Elem → Prop
   | .mk c kw items addI cont props pats addP pn deps els =>
     (∃ n, c = .object n) ∧ ClassOK ⟨kw, items, addI, cont, props, pats, addP, pn, deps, els⟩ ∧
     WFL env items ∧ WFO env addI ∧ WFO env cont ∧ WFK env props ∧ WFK env pats ∧ WFO env addP ∧ WFO env pn ∧
-    WFK env deps ∧ WFL env els
+    WFD env deps ∧ WFL env els
 
 /-- the classes of a module, top to bottom: each one executable in the namespace the earlier ones leave behind -/
 def ChainOK (env : String → Option Elem) : List Elem → Prop
